@@ -26,6 +26,10 @@ func VerifC18Flags() {
 	default:
 		args = []string{"--proxy_name=p", "--remote_port=6000", "--local_ip=10.0.0.1", "--ue", "--bandwidth_limit_mode=server"}
 	}
+	uc := typ == "tcp" && zzverif.Bool("uc")
+	if uc {
+		args = append(args, "--uc")
+	}
 	err := cmd.Flags().Parse(args)
 	zzverif.Assert(err == nil, "C18.flags.documented-flags-parse")
 	zzverif.Assert(c.GetBaseConfig().Name == "p", "C18.flags.name")
@@ -40,7 +44,7 @@ func VerifC18Flags() {
 	case *v1.HTTPProxyConfig:
 		zzverif.Assert(two(cc.CustomDomains, "a.com", "b.com") && two(cc.Locations, "/x", "/y") && cc.HTTPUser == "u" && cc.HostHeaderRewrite == "h", "C18.flags.http-fields-as-in-a-file")
 	case *v1.TCPProxyConfig:
-		zzverif.Assert(cc.RemotePort == 6000 && cc.LocalIP == "10.0.0.1" && cc.Transport.UseEncryption && cc.Transport.BandwidthLimitMode == "server", "C18.flags.tcp-fields-as-in-a-file")
+		zzverif.Assert(cc.RemotePort == 6000 && cc.LocalIP == "10.0.0.1" && cc.Transport.UseEncryption && cc.Transport.UseCompression == uc && cc.Transport.BandwidthLimitMode == "server", "C18.flags.tcp-fields-as-in-a-file")
 	}
 	zzverif.Reach("C18.flags.done")
 }
